@@ -174,21 +174,46 @@ Definition pend_ok (s : zst) (o : list (nat * list tmarshal)) : bool :=
   (length (c_pend s) =? length o) &&
   forallb (fun e => opt_eqb (list_eqb tm_eqb) (lookup (c_pend s) (fst e)) (Some (snd e))) o.
 
-Definition snap_ok (s : zst) (outs : list zout) (oc : outcome) (o : snap) : bool :=
+(* GetRoster returns the first matching roster in map iteration order: when several stored
+   trees carry different rosters under the requested id, any of them may be sent *)
+Definition stored_rosters (s : zst) (rid : nat) : list zroster :=
+  flat_map (fun e => match entry_roster rid e with Some r => [r] | None => [] end) (c_store s).
+
+Definition outs_agree (s0 : zst) (o : zop) (outs obs : list zout) : bool :=
+  list_eqb out_eqb outs obs ||
+  match o, outs, obs with
+  | PRequestRoster rid _, [ORoster (Some _)], [ORoster (Some r')] => existsb (roster_eqb r') (stored_rosters s0 rid)
+  | _, _, _ => false
+  end.
+
+Definition snap_ok (s0 : zst) (op : zop) (s : zst) (outs : list zout) (oc : outcome) (o : snap) : bool :=
   store_ok s (sn_store o) && pend_ok s (sn_pend o) && Bool.eqb (c_plock s) (sn_plock o) &&
   same_multiset (c_insts s) (sn_insts o) && list_eqb pair_eqb (c_parked s) (sn_parked o) &&
-  list_eqb out_eqb outs (sn_outs o) && outcome_eqb oc (sn_oc o).
+  outs_agree s0 op outs (sn_outs o) && outcome_eqb oc (sn_oc o).
+
+(* the operations the observed one stands for: a bare description may have met any of the
+   live instances' rosters carrying its roster id last (Go map iteration order) *)
+Definition variants (s : zst) (o : zop) : list zop :=
+  match o with
+  | PTreeMarshal tm _ =>
+      match inst_rosters s (c_insts s) (tm_rid tm) with
+      | Ok l => map (PTreeMarshal tm) (seq 0 (Nat.max 1 (length l)))
+      | _ => [o]
+      end
+  | _ => [o]
+  end.
 
 Fixpoint replay (s : zst) (ops : list zop) (obs : list snap) : bool :=
   match ops, obs with
   | [], [] => true
   | o :: ro, sn :: rs =>
-      let '(s', outs, oc) := step Z.add code_fixes s o in
-      snap_ok s' outs oc sn &&
-      match oc with
-      | Fine => replay s' ro rs
-      | _ => match ro with [] => true | _ => false end     (* nothing runs after a crash *)
-      end
+      existsb (fun o' =>
+        let '(s', outs, oc) := step Z.add code_fixes s o' in
+        snap_ok s o' s' outs oc sn &&
+        match oc with
+        | Fine => replay s' ro rs
+        | _ => match ro with [] => true | _ => false end     (* nothing runs after a crash *)
+        end) (variants s o)
   | _, _ => false
   end.
 
@@ -307,6 +332,11 @@ Definition prev_pend (p : option snap) (rid : nat) : list tmarshal :=
 Definition is_requested (v : option (option ztree)) : bool :=
   match v with Some None => true | _ => false end.
 
+Definition is_present (v : option (option ztree)) : bool :=
+  match v with Some (Some _) => true | _ => false end.
+Definition is_absent (v : option (option ztree)) : bool :=
+  match v with None => true | _ => false end.
+
 Definition changed (p : option snap) (e : nat * option (option ztree)) : bool :=
   negb (opt_eqb (opt_eqb tree_eqb) (prev_store p (fst e)) (snd e)).
 
@@ -321,8 +351,10 @@ Definition stored_describes (n : snap) (m : tmarshal) (ro : zroster) : bool :=
 
 Definition check_step (p : option snap) (o : zop) (n : snap) : list nat :=
   if negb (is_peer o) then [] else
-  (* 5: a peer message changes the stored value of an id only while that id is requested and not received *)
-  clause 5 (forallb (fun e => negb (changed p e) || is_requested (prev_store p (fst e))) (sn_store n)) ++
+  (* 5 / 8: a peer message changes the stored value of an id only while that id is requested and
+     not received: 5 = it replaced a tree that was present, 8 = it stored under an id that was absent *)
+  clause 5 (forallb (fun e => negb (changed p e) || negb (is_present (prev_store p (fst e)))) (sn_store n)) ++
+  clause 8 (forallb (fun e => negb (changed p e) || negb (is_absent (prev_store p (fst e)))) (sn_store n)) ++
   match o with
   | PResponseTree (Some m) (Some ro) =>
       if malformed m ro || (tm_tid m =? 0)
@@ -331,9 +363,9 @@ Definition check_step (p : option snap) (o : zop) (n : snap) : list nat :=
            then clause 7 (outcome_eqb (sn_oc n) Fine && stored_describes n m ro)
            else []
   | PResponseTree _ _ => clause 6 (outcome_eqb (sn_oc n) Fine && unchanged_all p n)
-  | PTreeMarshal m =>
+  | PTreeMarshal m _ =>
       match tm_children m with
-      | [] => clause 6 (outcome_eqb (sn_oc n) Fine && unchanged_all p n)
+      | [] => clause 6 (negb (outcome_eqb (sn_oc n) Crashed) && unchanged_all p n)
       | _ => []
       end
   | PRoster ro =>
@@ -359,7 +391,8 @@ Fixpoint check_hist (p : option snap) (ops : list zop) (snaps : list snap) : lis
    2 a malformed or mismatching description / undecodable bytes not rejected with an error
    3 an acceptable description rebuilt into a tree that is not the described one
    4 a server that learnt the tree from a peer sees another tree / roster / node list, or none
-   5 a peer message changed what is stored under a tree id that was not requested-and-missing
+   5 a peer message replaced the tree stored under an id (the id was present, not awaited)
+   8 a peer message stored a tree under an id that was absent (never asked for, or released)
    6 a malformed or mismatching description was stored or crashed the handler
    7 a requested tree, correctly described, was not stored as described *)
 Definition check (c : case) : list nat :=
